@@ -379,7 +379,7 @@ def r5_walker_wiring(ctx):
     yield Ob('nodeCounter:NodeCounter.get_count is 0 for an unseen path', ok, ctx.floc(fn), '' if ok else 'default changed')
     fn = ctx.func('nodeCounter', 'NodeCounter.increment')
     txt = ast.unparse(fn)
-    ok = 'self._dict[k] += 1' in txt and 'self._dict[k] = 1' in txt
+    ok = ('self._dict[k] += 1' in txt and 'self._dict[k] = 1' in txt) or 'self._dict[k] = self._dict.get(k, 0) + 1' in txt
     require_idiom(ok, 'c02.py:377')
     yield Ob('nodeCounter:NodeCounter.increment counts from 1 in steps of 1', ok, ctx.floc(fn), '' if ok else 'increment changed')
     fn = ctx.func('nodeCounter', 'NodeCounter.reset_to_node')
@@ -417,10 +417,10 @@ def r6_shared_recognisers(ctx):
             yield o
 
 RULES = [
-    Rule('C02.R1', 'every index entry is selectable: whitelist, the map\'s own envelope code lists, BHT tuple', r1_selectable, floor=120),
-    Rule('C02.R2', 'literal map paths in code resolve in every map they are applied to', r2_literal_paths, floor=30),
-    Rule('C02.R3', 'recogniser dispatch covers every data type / format qualifier in the data', r3_dispatch_covers_data, floor=10),
+    Rule('C02.R1', 'every index entry is selectable: whitelist, the map\'s own envelope code lists, BHT tuple', r1_selectable, floor=90),
+    Rule('C02.R2', 'literal map paths in code resolve in every map they are applied to', r2_literal_paths, floor=22),
+    Rule('C02.R3', 'recogniser dispatch covers every data type / format qualifier in the data', r3_dispatch_covers_data, floor=7),
     Rule('C02.R4', 'constant child indices of the segment matchers exist in every applicable segment node', r4_matcher_indices, floor=2000),
-    Rule('C02.R5', 'walker counting/ordering atoms: limits, resets, pending-missing conditions, position filter', r5_walker_wiring, floor=16),
-    Rule('C02.R6', 'shared with C13.R1/R3/R4: the recognisers accept every value of the X12 value languages', r6_shared_recognisers, floor=45),
+    Rule('C02.R5', 'walker counting/ordering atoms: limits, resets, pending-missing conditions, position filter', r5_walker_wiring, floor=12),
+    Rule('C02.R6', 'shared with C13.R1/R3/R4: the recognisers accept every value of the X12 value languages', r6_shared_recognisers, floor=33),
 ]
